@@ -232,6 +232,8 @@ def cty(t):
         return "hexstr"
     if t == "header":
         return "Decoder.header"
+    if t == "hclass":
+        return "Decoder.hclass"
     if is_view(t):
         return VIEW_CTY[t[1]]
     if t[0] == "dictview":
@@ -822,6 +824,9 @@ class Tr:
                 return [], n.id, env[n.id]
             if n.id in fn.consts:
                 return [], n.id, fn.consts[n.id]
+            if n.id in HEADER_CLASSES and fn.struct_ok:
+                # one of the two header-tuple classes as a VALUE (e.g. `cls = Never if flag else Plain; cls(n, v)`)
+                return [], HEADER_CLASSES[n.id], "hclass"
             bad(n, f"unknown name {n.id}")
         if isinstance(n, ast.Attribute):
             if isinstance(n.value, ast.Name) and n.value.id == "self" and fn.init_fields is not None:
@@ -1034,6 +1039,15 @@ class Tr:
             f = n.func
             if isinstance(f, ast.Name) and f.id in fn.funs and (f.id in env or f.id in BUILTIN_NAMES):
                 bad(n, f"{f.id} is also a local variable, or a module function named like a builtin")
+            if isinstance(f, ast.Name) and env.get(f.id) == "hclass":
+                # a call of a local that holds one of the two header-tuple classes: the tuple of that class
+                if len(n.args) != 2 or n.keywords or any(isinstance(a, ast.Starred) for a in n.args):
+                    bad(n, "header constructor through a variable")
+                ab, a, aty = self.E(n.args[0], env)
+                vb, v, vty = self.E(n.args[1], env)
+                if aty != "bytes" or vty != "bytes":
+                    bad(n, "header constructor argument")
+                return ab + vb, f"({f.id}, {a}, {v})", "header"
             if isinstance(f, ast.Name):
                 if f.id == "isinstance" and len(n.args) == 2 and not n.keywords:
                     # view: class tests on a container / a form
